@@ -69,13 +69,13 @@ class VChan:
         self.closed = True
 
 
-def scenario(n_clients, with_bg, answer_order, chooser, sync_timeout=2.0, timeouts=None, eof_after=None, peer_requests=0, exc_replies=(), answer_delay=None):
+def scenario(n_clients, with_bg, answer_order, chooser, sync_timeout=2.0, timeouts=None, eof_after=None, peer_requests=0, exc_replies=(), answer_delay=None, events_out=None):
     """returns dict(result per client, events, lateness per client, deadlock, clock advances)"""
     codes = [P.Connection.serve.__code__, P.Connection._dispatch.__code__, P.Connection._seq_request_callback.__code__,
              P.Connection._async_request.__code__, P.Connection._get_seq_id.__code__, P.Connection._send.__code__,
              A.AsyncResult.wait.__code__, A.AsyncResult.__call__.__code__, H.BgServingThread._bg_server.__code__]
     S = VSched(codes)
-    events = []
+    events = events_out if events_out is not None else []      # (a scripted chooser may watch the events as they are recorded)
     rec = events.append
     vt = VTime(S)
     old = (rpyc.lib.time, H.time)
